@@ -593,6 +593,37 @@ static double vp_strtod(const char *p, char **end) { __CPROVER_assert(p == g_lin
                    stubs=['strtod (consumes the number the writer wrote; may set errno to ERANGE as the C standard allows for subnormal results)'])
 
 
+def h_suffixvalue_accepts(real):
+    """the reader accepts every suffix value line the writer writes ("<index> <value>", SuffixValueWriter::Visit): for an integer suffix EVERY
+    int value (INT_MIN and INT_MAX included) is accepted and comes back exactly; for a real suffix the value strtod returns is handed on."""
+    from specs import C14
+    El = 'double' if real else 'int'
+    parts = ['''#include "mp_shim.h"
+#include <limits.h>
+#include <float.h>
+int vp_one;
+typedef struct FILE FILE;
+''', C14.ENUM, 'typedef enum NLW2_SOLReadResultCode NLW2_SOLReadResultCode;\n', C14.PAIRS, '''
+int g_idx; %s g_val; int g_calls;
+/* the line holds "<index> <value>" as the writer printed them: strtol finds the index, strtod the value (an int value is exact in a double) */
+#define fgets(buf, n, f) (buf)
+static long vp_strtol(const char *p, char **end, int base) { *end = (char *)p + 1; return g_idx; }
+static double vp_strtod(const char *p, char **end) { *end = (char *)p + 1; return (double)g_val; }
+#define strtol vp_strtol
+#define strtod vp_strtod
+''' % El,
+             Fn(C14.HPP, r'inline NLW2_SOLReadResultCode Read\(\s*FILE\* f, int binary,\s*std::pair<int, El>\s*&?\s*v, std::string\s*&?\s*err\)',
+                'NLW2_SOLReadResultCode Read_pair(FILE *f, int binary, struct pair_int_%s *v_p, char *err)' % El,
+                contract='__CPROVER_requires(!binary && __CPROVER_w_ok(err, 512) && __CPROVER_w_ok(v_p, sizeof(*v_p)) && g_idx >= 0 && g_val == g_val) '
+                         '__CPROVER_ensures(__CPROVER_return_value == NLW2_SOLRead_OK && v_p->first == g_idx && v_p->second == g_val) __CPROVER_assigns(*v_p)',
+                subst=C14.ERR_SUBST, refs={'v': 'v_p'}, defines={'El': El, 'VP_IS_INTEGER_El': '0' if real else '1',
+                       'VP_MIN_El': 'DBL_MIN' if real else 'INT_MIN', 'VP_MAX_El': 'DBL_MAX' if real else 'INT_MAX'},
+                label='mp::Read(FILE*,int,std::pair<int,El>&,std::string&)', inst='El=%s' % El, nmatches=1),
+             'void harness(void) { vp_one = 1; char err[512]; struct pair_int_%s v; g_idx = nondet_int(); g_val = %s; Read_pair((FILE *)0, 0, &v, err); VP_REACH("normal return"); }\n' % (El, 'nondet_double()' if real else 'nondet_int()')]
+    return Harness('C05.reader.suffixvalue.accepts.' + El, 'C05', parts, enforce='Read_pair', replay=replay_writer,
+                   stubs=['fgets / strtol / strtod (the line holds the index and the value the writer printed)'])
+
+
 def h_table_accepts():
     """gsufread reads a table the writer wrote completely: the writer emits the table text T (tablen = |T| + 1, tablines = 1 + number of
     newlines in T) followed by a newline; for every line but the last the reader must offer fgets room for the whole line, and it must
@@ -638,4 +669,4 @@ void harness(void) { vp_one = 1; SR.h.tablen = nondet_long(); SR.tablines = nond
 
 
 def harnesses():
-    return [h_main(), h_table_accepts(), h_options_count_accepts(False), h_options_count_accepts(True), h_size_check_accepts('vars'), h_size_check_accepts('cons'), h_objno_accepts(), h_valueline_accepts(), h_suffix_block(), h_value_writer(False), h_value_writer(True), h_visit_values('int'), h_visit_values('double'), h_counter(), h_sufhead_accepts()]
+    return [h_main(), h_table_accepts(), h_options_count_accepts(False), h_options_count_accepts(True), h_size_check_accepts('vars'), h_size_check_accepts('cons'), h_objno_accepts(), h_valueline_accepts(), h_suffixvalue_accepts(False), h_suffixvalue_accepts(True), h_suffix_block(), h_value_writer(False), h_value_writer(True), h_visit_values('int'), h_visit_values('double'), h_counter(), h_sufhead_accepts()]
